@@ -148,6 +148,16 @@ def checks(labels, C, seed):
         for k in (0, 1, 2):
             a = idx(ClasswiseSubsetWrapper(ds(), end_index=k, check_enough_samples=False))
             add("ClasswiseSubset", {"end_index": k}, a, [i for c in range(C) for i in per[c][:k]], "class-wise subset does not take k samples per class")
+    elif C >= 2:
+        # unlabeled (-1) samples present: the per-class selection is taken among the labeled samples of each class
+        per = {c: [i for i in rng if labels[i] == c] for c in range(C)}
+        for p in (0.5, 1.0):
+            a = idx(ClasswiseSubsetWrapper(ds(), end_percent=p))
+            add("ClasswiseSubset", {"end_percent": p, "unlabeled": True}, a, [i for c in range(C) for i in per[c][:int(p * len(per[c]))]],
+                "class-wise subset with unlabeled samples present does not take the requested share of each class")
+        a = idx(ClasswiseSubsetWrapper(ds(), end_index=1, check_enough_samples=False))
+        add("ClasswiseSubset", {"end_index": 1, "unlabeled": True}, a, [i for c in range(C) for i in per[c][:1]],
+            "class-wise subset with unlabeled samples present does not take k samples per class")
     return out
 
 
